@@ -108,3 +108,19 @@ M("sub-removed-by-findservice", "C06", "break", (S, "        if not matching_ins
 M("disc-direct-stop-notify", "C05", "break", (S, "        if entry.ttl == 0:\n            self.service_offer_stopped(addr, entry)", "        if entry.ttl == 0:\n            self._notify_service_stopped(someip.config.Service.from_offer_entry(entry), addr)\n            self.service_offer_stopped(addr, entry)"))
 M("disc-catchup-by-matches-offer", "C05", "break", (S, "        self.watched_services[service].add(listener)\n\n        for addr, services in list(self.found_services.store.items()):\n            for s in list(services):\n                if service.matches_service(s):", "        self.watched_services[service].add(listener)\n\n        for addr, services in list(self.found_services.store.items()):\n            for s in list(services):\n                if service.matches_offer(s.create_offer_entry()):"))
 M("ord-twin-loop-fanout", "C05,C06,C07", "benign", (S, "        self.subscriber.reboot_detected(addr)\n        self.discovery.reboot_detected(addr)\n        self.announcer.reboot_detected(addr)", "        for part in (self.subscriber, self.discovery, self.announcer):\n            part.reboot_detected(addr)"))
+
+# ---------------------------------------------------------------- C10
+M("c10-two-times-i", "C10", "break", (S, "await asyncio.sleep((2 ** i) * self.timings.REPETITIONS_BASE_DELAY)\n                self._send_offer()", "await asyncio.sleep((2 * i) * self.timings.REPETITIONS_BASE_DELAY)\n                self._send_offer()"))
+M("c10-finally-unguarded", "C10", "break", (S, "        finally:\n            if self.timings.CYCLIC_OFFER_DELAY:\n                self._send_offer(stop=True)", "        finally:\n            self._send_offer(stop=True)"))
+M("c10-flag-true-in-start", "C10,C12", "break", (S, "        self._can_answer_offers = False\n        self._task = asyncio.create_task(self._offer_task())", "        self._can_answer_offers = True\n        self._task = asyncio.create_task(self._offer_task())"))
+M("c10-cyclic-sleeps-ttl", "C10", "break", (S, "                await asyncio.sleep(self.timings.CYCLIC_OFFER_DELAY)\n                self._send_offer()", "                await asyncio.sleep(self.timings.ANNOUNCE_TTL)\n                self._send_offer()"))
+M("c10-stop-offer-ttl-1", "C10", "break", (S, "            self.timings.ANNOUNCE_TTL if not stop else 0", "            self.timings.ANNOUNCE_TTL if not stop else 1"))
+M("c10-stop-always-sends", "C10", "break", (S, "        if not self.timings.CYCLIC_OFFER_DELAY:\n            self._send_offer(stop=True)", "        self._send_offer(stop=True)"))
+M("c10-announcer-stop-unguarded", "C10", "break", (S, "        if not self.started:\n            return\n        for instance in self.announcing_services:\n            instance.stop()", "        for instance in self.announcing_services:\n            instance.stop()"))
+M("c10-stop-keeps-may-answer", "C10,C12", "break", (S, "        self._task = None\n        self._can_answer_offers = False\n", "        self._task = None\n"))
+M("c10-deferred-offer-unchecked", "C10,C12", "break", (S, "        if not stop and self._task is None:\n            # delayed answer to a FindService, scheduled before this instance was stopped\n            return\n", ""))
+M("c10-try-covers-initial-wait", "C10", "break",
+  (S, "        await asyncio.sleep(\n            random.uniform(\n                self.timings.INITIAL_DELAY_MIN, self.timings.INITIAL_DELAY_MAX\n            )\n        )\n        self._send_offer()\n\n        try:\n            self._can_answer_offers = True",
+      "        try:\n            await asyncio.sleep(\n                random.uniform(\n                    self.timings.INITIAL_DELAY_MIN, self.timings.INITIAL_DELAY_MAX\n                )\n            )\n            self._send_offer()\n            self._can_answer_offers = True"))
+M("c10-twin-try-covers-first-offer", "C10,C12", "benign", (S, "        self._send_offer()\n\n        try:\n            self._can_answer_offers = True", "        try:\n            self._send_offer()\n            self._can_answer_offers = True"))
+M("c10-twin-delay-commuted", "C10", "benign", (S, "await asyncio.sleep((2 ** i) * self.timings.REPETITIONS_BASE_DELAY)\n                self._send_offer()", "await asyncio.sleep(self.timings.REPETITIONS_BASE_DELAY * (1 << i))\n                self._send_offer()"))
